@@ -38,7 +38,7 @@ Qed.
 Theorem from_hdf5_is_source : forall f ax, from_hdf5_gen f (axis_name ax) = from_hdf5 f ax.
 Proof.
   intros f ax. unfold from_hdf5_gen, from_hdf5.
-  replace (negb (name_in (axis_name ax) [b_sample; b_observation])) with false by (destruct ax; reflexivity).
+  match goal with |- (if ?c then _ else _) = _ => replace c with false by (destruct ax; reflexivity) end.
   rewrite type_read. unfold h5_attr, raise.
   destruct (attr_text f b_id) as [id_|]; cbn [bind]; [|reflexivity].
   destruct (attr_text f b_creation_date) as [date|]; cbn [bind]; [|reflexivity].
@@ -55,11 +55,7 @@ Proof.
   destruct (need_dset f [axis_name ax; b_matrix; b_indices]) as [di|]; cbn [bind]; [|reflexivity].
   destruct (need_dset f [axis_name ax; b_matrix; b_indptr]) as [dp|]; cbn [bind]; [|reflexivity].
   rewrite bind_ret.
-  destruct ax.
-  - replace (str_eq (axis_name Obs) b_sample) with false by reflexivity.
-    unfold csr_matrix, table_ctor. cbn [fst snd]. reflexivity.
-  - replace (str_eq (axis_name Samp) b_sample) with true by reflexivity.
-    unfold csc_matrix, table_ctor. cbn [fst snd]. reflexivity.
+  destruct ax; reflexivity.
 Qed.
 
 Theorem from_hdf5_unknown_axis_is_source : forall f a,
